@@ -694,7 +694,7 @@ def run(tier, prop=PROP):
                          matched + 1, pool[i - 1]["label"] if i else "?"))
     recby = {r["case"]["id"]: r for r in recs}
     for b in badrecs:
-        if b["rec"] in recby:
+        if b["src"] == "rec":
             r = recby[b["rec"]]
             v = r["vars"][b["var"] - 1] if b["var"] else None
             if b["what"].startswith("not a presentation") or b["what"].startswith("residue graph"):
@@ -704,11 +704,11 @@ def run(tier, prop=PROP):
                          what="random case %d, variant %d: %s (%s)" % (b["rec"], b["var"], b["what"],
                                                                       "; ".join(iu.diff(v["proj"], r["vars"][0]["proj"], "variant", "base labelling"))[:300] if v else ""))
         else:
-            r = libraw.get(b["rec"])
+            r = libraw[opaque[b["rec"] - 1]["id"]]
             v = r["vars"][b["var"] - 1]
-            ck.violation({"kind": "I->S repository input", "input": b["rec"], "labelling": v["labelling"], "observed": v["proj"] if v["proj"].get("err") else None,
+            ck.violation({"kind": "I->S repository input", "input": r["id"], "labelling": v["labelling"], "observed": v["proj"] if v["proj"].get("err") else None,
                           "differences": iu.diff(v["proj"], r["base"], "relabelled", "base labelling")[:3]},
-                         what="%s relabelled (seed %d, %s keys): %s" % (b["rec"], v["seed"], v["keys"], "; ".join(iu.diff(v["proj"], r["base"], "relabelled", "base labelling"))[:300]))
+                         what="%s relabelled (seed %d, %s keys): %s" % (r["id"], v["seed"], v["keys"], "; ".join(iu.diff(v["proj"], r["base"], "relabelled", "base labelling"))[:300]))
 
     ck.stage("binding demonstration")
     demo = json.loads(json.dumps({"ffs": doc["ffs"][:3], "recs": doc["recs"][:3], "opaque": doc["opaque"][:2], "fresh": doc["fresh"], "traces": doc["traces"][:2]}))
@@ -720,8 +720,8 @@ def run(tier, prop=PROP):
     demo["traces"][0][1]["out"] = "f" * 16                   # the result of the second run of one history
     demo["recs"][1]["vars"][1]["var"]["nodeorder"][0] = demo["recs"][1]["vars"][1]["var"]["nodeorder"][1]   # not a permutation any more
     rej2, bad2, _ = validate(ck, demo, "demo", expect_reject=True)
-    got = {(b["rec"], b["var"], b["what"][:12]) for b in bad2}
-    want = {(demo["recs"][0]["case"]["id"], 2, "projection d"), (demo["opaque"][0]["id"], 1, "projection d"), (demo["recs"][1]["case"]["id"], 2, "not a presen")}
+    got = {(b["src"], b["rec"], b["var"], b["what"][:12]) for b in bad2}
+    want = {("rec", demo["recs"][0]["case"]["id"], 2, "projection d"), ("opaque", 1, 1, "projection d"), ("rec", demo["recs"][1]["case"]["id"], 2, "not a presen")}
     if not want <= got or rej2.get(1) != 1:
         raise c.MachineryError("binding demonstration failed: corrupted records %s / trace %s not rejected as expected (got %s, %s)" % (want, {1: 1}, got, rej2))
     if len(bad2) != 3 or len(rej2) != 1:
